@@ -6,6 +6,16 @@ props = [json.loads(l)["id"] for l in open(os.path.join(ROOT, "properties.jsonl"
 
 # id -> (category, technique, level text, level note, design ref)
 CHECKS = {
+ "C01": ("exploration",
+         "runtime monitor: JA3 reference computed from the bytes (independent parser) on crypto/tls-accepted forged hellos (shape grid exhaustive) + real utls/crypto-tls handshakes through the full stack judged at a recording backend, race detector on",
+         "The real fingerprint function is run on every forged ClientHello that crypto/tls (configured like the proxy) accepts and compared with an independent reference computed from the same bytes; the complete GREASE/plain shape grid (length 0..3 per list) is enumerated, the rest is PRNG driven. Real handshakes with browser presets, random specs and crypto/tls clients, chopped into 1..7-byte TCP writes, on h2 and http/1.1 with several requests per connection, are judged at the backend against the reference of the bytes the client wrote. Held on the hellos produced.",
+         "trusted: internal/hello (parser + JA3 reference, calibrated against the Salesforce example), crypto/tls as the domain predicate, utls only as byte sender; known classes D8 (hello spans records) and D9 (tlsx SNI length) are listed in KNOWN_FINDINGS.txt",
+         "DESIGN.md §4 C01"),
+ "C02": ("exploration",
+         "runtime monitor: JA4 reference (calibrated against 145 FoxIO snapshot values) on crypto/tls-accepted forged hellos + metamorphic permutation/GREASE variants + real handshakes through the full stack judged at a recording backend, race detector on",
+         "As C01 for JA4; additionally every accepted base hello gets 4 (quick) / 12 (thorough) variants with permuted cipher and extension lists and GREASE inserted/moved/replaced, which must all yield the base value, and every value must have the a_b_c form. Held on the hellos produced.",
+         "trusted: internal/hello JA4 reference (calibrated at start-up against the FoxIO snapshots in pkg/ja4pcap/testdata), crypto/tls as the domain predicate; ALPN bytes >= 0x80 are outside the judged domain; known classes D8 and D13 (utls strict extension parsers) are listed in KNOWN_FINDINGS.txt",
+         "DESIGN.md §4 C02"),
  "C04": ("exploration",
          "runtime monitor: stream-prefix oracle over scripted cut schedules (declared lengths exhaustive, short-stream compositions exhaustive) + real TLS handshakes through a chopping conn",
          "Every run drives the real hack.HijackClientHelloConn between a scripted net.Conn and a reader and compares GetClientHello()/the bytes passed up with the stream prefix the property defines, after every single read. All declared lengths 0..18432 and all cut patterns of short streams are enumerated; the rest is PRNG driven. Held on the executions produced, nothing more.",
